@@ -291,3 +291,18 @@ package jsonrpc2
 // EncodeMessage only reads the message (frame checked): it fills a local wire struct and marshals it.
 //@ func EncodeMessage [C19, C10, C08]
 //@   modifies extern
+
+// ---------------------------------------------------------------------------------------------
+// C04 (receiver side): Cancel(id) cancels at most the one request indexed under id
+// ---------------------------------------------------------------------------------------------
+// The lookup action reads exactly the entry of this id (nil if the request is unknown or already answered).
+//@ func (*Connection).Cancel$1 [C04]
+//@   ensures @looks-up-exactly-this-id req == s.incomingByID[id]
+// Cancel then calls the cancel function of that one request, or nothing.
+//@ func (*Connection).Cancel [C04]
+//@   track req.cancel as cancelOne
+//@   callee req.cancel: modifies *
+//@   requires c != nil
+//@   modifies *
+//@   ensures @at-most-one-request-is-cancelled calls(cancelOne) <= 1
+//@   assert at call req.cancel: @only-the-request-that-was-looked-up local(req) != nil
